@@ -187,12 +187,13 @@ class Escape:
             return False       # destructor elements: not inside a try body we track
         t = f.nodes[node].get("try")
         tries = {x["id"]: x for x in f.d.get("tries", [])}
-        while t is not None and t >= 0 and t in tries:
+        # every alternative of 'A|B' has to be covered by some enclosing handler
+        pending = set(exc.split("|"))
+        while t is not None and t >= 0 and t in tries and pending:
             for h in tries[t]["handlers"]:
-                if handler_covers(h, exc):
-                    return True
+                pending = {e for e in pending if not handler_covers(h, e)}
             t = tries[t]["parent"]
-        return False
+        return not pending
 
     def escaping(self):
         """usr -> {site key: (Site, via-edge or None)} for every function."""
